@@ -105,11 +105,14 @@ func (o *vectorOperator) initOutputs(ctx context.Context) error {
 	}()
 
 	lowCardSide, err := o.rhs.Series(ctx)
+	// Always wait for the loader of the left-hand side, so that it does
+	// not outlive this call when the right-hand side fails.
+	lhsErr := <-errChan
 	if err != nil {
 		return err
 	}
-	if err := <-errChan; err != nil {
-		return err
+	if lhsErr != nil {
+		return lhsErr
 	}
 
 	o.lhSampleIDs = highCardSide
